@@ -128,6 +128,8 @@ pub struct World {
     pub verifier_account: Pubkey,
     pub access_controller: Pubkey,
     pub nonce: u64,
+    /// Execution fee the keeper asks for in `execute_*` (≤ the action's max execution lamports).
+    pub exec_fee: u64,
 }
 
 pub const LAMPORTS: u64 = 1_000_000_000;
@@ -240,6 +242,7 @@ impl World {
             )
             .0,
             nonce: 0,
+            exec_fee: exchange::EXECUTION_FEE,
         };
         if trace_max > 0 {
             w.enable_trace(trace_max);
